@@ -109,6 +109,12 @@ def apply_op(w, A, B, op, alt):
         return ir.extrapolate(A, tuple(float(r) for r in rho), span, intercept=float(c)), None
     if name == "copy":
         return A.copy(), None
+    if name == "rebuild":
+        # a new series from the start period and the data array of an existing one (its own storage must not be adopted)
+        return (ir.Series(num_variants=A.num_variants) if A.start is None else ir.Series(start=A.start, values=A.data)), None
+    if name == "rw":
+        new = math.nan if is_mv(op[2]) else float(op[2])
+        return _none(A.replace_where((lambda x: x < 0) if op[1] == "neg" else (lambda x: x > 0), new)), None
     raise MachineryError("unknown series op %r" % (op,))
 
 
@@ -126,7 +132,7 @@ def op_tag(op):
         return "%s/%s/%s" % (name, op[1], op[2])
     if name == "extrap":
         return "extrap/%s" % op[1]
-    if name in ("binser", "binsc", "rbinsc", "un"):
+    if name in ("binser", "binsc", "rbinsc", "un", "rw"):
         return "%s/%s" % (name, op[1])
     return name
 
@@ -279,7 +285,7 @@ def _rand_op(rnd, nvA, nvB):
     form = rnd.choice(("method", "func"))
     per = lambda: rnd.randint(-6, 24)
     vs = lambda: NONE if nvA == 1 or rnd.random() < 0.5 else tuple(sorted(rnd.sample(range(1, nvA + 1), rnd.randint(1, nvA))))
-    kind = rnd.choice(("get", "call", "set", "set", "shift", "clip", "un", "elem", "binsc", "rbinsc", "stat", "mov", "fill", "extrap", "copy",
+    kind = rnd.choice(("get", "call", "set", "set", "shift", "clip", "un", "elem", "binsc", "rbinsc", "stat", "mov", "fill", "extrap", "copy", "rebuild", "rw",
                        "overlay", "underlay", "hstack", "binser", "binser"))
     if kind == "get":
         return ("get", tuple(per() for _ in range(rnd.randint(1, 4))), vs())
@@ -320,6 +326,10 @@ def _rand_op(rnd, nvA, nvB):
         return ("extrap", form, tuple(rnd.randint(-2, 2) for _ in range(rnd.randint(1, 2))), rnd.randint(-2, 2), lo, lo + rnd.randint(0, 2))
     if kind == "copy":
         return ("copy",)
+    if kind == "rebuild":
+        return ("rebuild",)
+    if kind == "rw":
+        return ("rw", rnd.choice(("neg", "pos")), rnd.choice((NAN, 0, rnd.randint(-9, 9))))
     if kind in ("overlay", "underlay"):
         return (kind, form)
     if kind == "hstack":
@@ -332,7 +342,7 @@ def _uses_b(op):
 
 
 def _has_result(op):
-    return op[0] in ("call", "hstack", "binser", "binsc", "rbinsc", "un", "copy") or (op[0] in ("shift", "overlay", "underlay", "elem", "stat", "mov", "fill", "extrap") and op[1] == "func")
+    return op[0] in ("call", "hstack", "binser", "binsc", "rbinsc", "un", "copy", "rebuild") or (op[0] in ("shift", "overlay", "underlay", "elem", "stat", "mov", "fill", "extrap") and op[1] == "func")
 
 
 def _loose_after(loose, op, r, k):
@@ -425,6 +435,11 @@ def record_trace(rnd, f, nsteps):
             return {"init": init, "steps": tuple(steps)}, "after %r on %s a value is not an integer: %r" % (_plain(op), r, {h: w.project(objs[h]) for h in T_HANDLES})
         big = any(isinstance(v, int) and abs(v) > 10 ** 6 for c in cs.values() for row in c["rows"] for v in row)
         out = any(c["start"] is not NONE and (c["start"] < T_ULO + T_MARGIN or c["start"] + len(c["rows"]) - 1 > T_UHI - T_MARGIN) for c in cs.values())
+        far = [h for h, c in cs.items() if c["start"] is not NONE and (c["start"] < T_ULO - 60 or c["start"] + len(c["rows"]) - 1 > T_UHI + 60)]
+        if far:
+            # shifts, windows and spans of this driver move a series by a few periods at a time: this is no edge effect
+            return {"init": init, "steps": tuple(steps)}, "after %r on %s the series %s starts %s periods from the base period, where no operation of this history can have put it" % (
+                _plain(op), r, far[0], cs[far[0]]["start"])
         if big or out:
             break                              # leave the window the spec instance covers: the trace ends before this step
         v = NONE
